@@ -12,8 +12,8 @@ import (
 	"strings"
 	"time"
 
-	client "github.com/liftbridge-io/liftbridge-api/v2/go"
 	"github.com/hashicorp/raft"
+	client "github.com/liftbridge-io/liftbridge-api/v2/go"
 	"github.com/nats-io/nats.go"
 
 	"github.com/liftbridge-io/liftbridge/server/commitlog"
@@ -51,16 +51,16 @@ type pubRec struct {
 }
 
 type cluster struct {
-	h       *h3
-	rf      int
-	minISR  int
-	conn    *nats.Conn
-	inbox   string
-	pubs    map[string]*pubRec
-	order   []*pubRec
-	onAck   func(c *cluster, r *pubRec, o *ackObs) // property-specific check at the instant of the ack
-	nextCID int
-	verbose bool
+	h        *h3
+	rf       int
+	minISR   int
+	conn     *nats.Conn
+	inbox    string
+	pubs     map[string]*pubRec
+	order    []*pubRec
+	onAck    func(c *cluster, r *pubRec, o *ackObs) // property-specific check at the instant of the ack
+	nextCID  int
+	verbose  bool
 	acksSeen int
 }
 
@@ -620,6 +620,7 @@ func (c *cluster) isrChanges(replica string) (shrinks, expands []uint64) {
 // up to and including index upTo (what the controller knows, as opposed to what a server has applied).
 func (c *cluster) raftView(upTo uint64) (leader string, isr map[string]bool) {
 	isr = map[string]bool{}
+	lepoch := uint64(0) // the leader epoch is the index of the entry that installed the leader
 	for _, e := range c.h.cluster.Log {
 		if e.Index > upTo {
 			break
@@ -636,18 +637,26 @@ func (c *cluster) raftView(upTo uint64) (leader string, isr map[string]bool) {
 			if op.CreateStreamOp.Stream.Name == clStream {
 				p := op.CreateStreamOp.Stream.Partitions[0]
 				leader = p.Leader
+				lepoch = e.Index
 				isr = map[string]bool{}
 				for _, r := range p.Isr {
 					isr[r] = true
 				}
 			}
+		// (ISR changes that name another leader generation than the current one, and leader changes to a
+		// replica outside the ISR, are committed but not applied: fixes 1e6b1e7 and 0ada69d)
 		case proto.Op_SHRINK_ISR:
-			delete(isr, op.ShrinkISROp.ReplicaToRemove)
+			if o := op.ShrinkISROp; o.Leader == "" || (o.Leader == leader && o.LeaderEpoch == lepoch) {
+				delete(isr, o.ReplicaToRemove)
+			}
 		case proto.Op_EXPAND_ISR:
-			isr[op.ExpandISROp.ReplicaToAdd] = true
+			if o := op.ExpandISROp; o.Leader == "" || (o.Leader == leader && o.LeaderEpoch == lepoch) {
+				isr[o.ReplicaToAdd] = true
+			}
 		case proto.Op_CHANGE_LEADER:
 			if isr[op.ChangeLeaderOp.Leader] {
 				leader = op.ChangeLeaderOp.Leader
+				lepoch = e.Index
 			}
 		}
 	}
